@@ -6,6 +6,7 @@ import (
 	"fmt"
 	"math"
 	"math/rand/v2"
+	"os"
 
 	"github.com/platinummonkey/go-concurrency-limits/core"
 	"github.com/platinummonkey/go-concurrency-limits/limit"
@@ -111,6 +112,12 @@ func (s Spec) New(reg core.MetricRegistry, name string, tags ...string) core.Lim
 	panic("kind " + s.Kind)
 }
 
+// LargeTables reports whether this process was started with the pre-computed log10 / sqrt tables enlarged through
+// the library's environment variables (the driver does that for one shard in four).
+func LargeTables() bool {
+	return os.Getenv("GO_CONCURRENCY_LIMIT_LOG10ROOT_PRE_COMPUTE") != "" || os.Getenv("GO_CONCURRENCY_LIMIT_SQRT_PRE_COMPUTE") != ""
+}
+
 // Kinds lists the adaptive algorithms.
 var Kinds = []string{"aimd", "vegas", "gradient", "gradient2"}
 
@@ -124,8 +131,9 @@ func smoothing(r *rand.Rand, bounded bool) float64 {
 	switch r.IntN(5) {
 	case 0:
 		return 1
-	case 1:
-		return []float64{0.5, 0.25, 0.2, 0.1}[r.IntN(4)]
+	case 1, 2:
+		// decimal grid: values whose binary rounding interacts with integer limits (fixed points one ulp below an integer)
+		return []float64{0.5, 0.25, 0.2, 0.1, 0.05, 0.15, 0.3, 0.4, 0.6, 0.7, 0.8, 0.9}[r.IntN(12)]
 	}
 	lo := 0.01
 	if bounded {
@@ -151,6 +159,11 @@ func Gen(r *rand.Rand, kind string, o Opts) Spec {
 	maxCap := 1000
 	if o.Bounded {
 		maxCap = 300
+	}
+	if o.Bounded && LargeTables() && kind == "vegas" && r.IntN(2) == 0 {
+		// the process was started with enlarged lookup tables: exercise estimates beyond the default table size
+		mx := 1001 + r.IntN(3000)
+		return Spec{Kind: "vegas", Max: mx, Initial: mx - r.IntN(100), Smoothing: []float64{1, 0.5}[r.IntN(2)], ProbeMult: 30}
 	}
 	if !o.Bounded && r.IntN(8) == 0 {
 		maxCap = 5000 // beyond the lookup tables
@@ -179,6 +192,9 @@ func Gen(r *rand.Rand, kind string, o Opts) Spec {
 			s.QueueKind, s.QueueArg = "sqrt", 1+r.IntN(8)
 		}
 		s.Min = 1 + r.IntN(10)
+		if r.IntN(3) == 0 {
+			s.Min = 1 + r.IntN(100)
+		}
 		floor := s.Min
 		if s.QueueArg > floor {
 			floor = s.QueueArg
